@@ -294,6 +294,67 @@ def build(run):
         return proved("exhaustive-finite", vcs=n, sample="accept => argument sets equal and (complex => test conjugated, others not)")
     run.add("check_integrand_arity/final-acceptance", final, kind="proof")
 
+    # ---- end to end: what compute_form_data accepts is (anti)linear in each argument of the form AS WRITTEN (the passes that run
+    # before the arity check -- algebra lowering, derivative expansion -- must not lose a conjugation or a factor)
+    def e2e():
+        from ufl import Coefficient, TestFunction, TrialFunction, conj, derivative, dx, ds, grad, inner, dot, div, real, imag, sin
+        from ufl.algorithms import compute_form_data
+        from ufv.terms import atoms_hook
+        Vv = ufl.FunctionSpace(tri, E.LagrangeElement(ufl.triangle, 1, (2,)))
+        f, g = Coefficient(V), Coefficient(V)
+        u, v = TrialFunction(V), TestFunction(V)
+        uu, vv = TrialFunction(Vv), TestFunction(Vv)
+        forms = [   # (name, form)
+            ("inner(grad u, grad v)", inner(grad(u), grad(v)) * dx), ("u*conj(v)", u * conj(v) * dx), ("u*v (no conj)", u * v * dx),
+            ("inner(grad u, grad(conj v))", inner(grad(u), grad(conj(v))) * dx), ("u.dx(0)*conj(conj(v).dx(0))", u.dx(0) * conj(conj(v).dx(0)) * dx),
+            ("inner(f, conj(v).dx(1))", inner(f, conj(v).dx(1)) * dx), ("conj(grad(conj(f)).grad(conj(v)))", conj(dot(grad(conj(f)), grad(conj(v)))) * dx),
+            ("conj(u)*conj(v)", conj(u) * conj(v) * dx), ("f*conj(v) + g*conj(v.dx(0))", f * conj(v) * dx + g * conj(v.dx(0)) * ds),
+            ("inner(div(uu), div(vv))", inner(div(uu), div(vv)) * dx), ("real(u)*conj(v)", real(u) * conj(v) * dx), ("u*imag(v)", u * imag(v) * dx),
+            ("derivative of energy", derivative(0.5 * inner(grad(f), grad(f)) * dx + f ** 3 * dx, f, v)), ("sin(u)*conj(v)", sin(u) * conj(v) * dx),
+            ("(u+f)*conj(v)", (u + f) * conj(v) * dx), ("grad(u*conj(v))[0]", grad(u * conj(v))[0] * dx),
+        ]
+        n = 0
+        for name, form in forms:
+            try:
+                compute_form_data(form, complex_mode=True)
+                accepted = True
+            except ArityMismatch:
+                accepted = False
+            if not accepted:
+                n += 1
+                continue       # rejections are always allowed by the property (conservative)
+            for itg in form.integrals():
+                for arg in form.arguments():
+                    nbr = arg.number()
+
+                    def mkw(scaled, nbr=nbr):
+                        def hook(w, e, comp, env):
+                            if isinstance(e, C.Argument) and e.number() == nbr and scaled:
+                                return N.mul(w.symbol("s"), atoms_hook(w, e, comp, env))
+                            return atoms_hook(w, e, comp, env)
+                        return hook
+                    w = World(symbolic=True, complex_mode=True)
+                    w.spatial_const = {"s"}
+                    w.terminal_hook = mkw(True)
+                    lhs = den(w, itg.integrand(), (), {})
+                    w2 = w.with_layers(w.layers)
+                    w2.terminal_hook = mkw(False)
+                    base = den(w2, itg.integrand(), (), {})
+                    sv = w.symbol("s")
+                    rhs = N.mul(N.conj(sv) if nbr == 0 else sv, base)
+                    vr = prove_equal(w, lhs, rhs, 20000)
+                    n += 1
+                    if vr.status == "refuted":
+                        return violated(f"compute_form_data(complex_mode=True) accepts '{name}', but the integrand {itg.integrand()} is not "
+                                        f"{'antilinear' if nbr == 0 else 'linear'} in argument {nbr}: scaling the argument by s does not scale the "
+                                        f"integrand by {'conj(s)' if nbr == 0 else 's'}; counter-model {vr.model}",
+                                        replay={"form": name, "argument": nbr, "model": vr.model}, reproduced=True, backend=vr.backend)
+                    if vr.status != "proved":
+                        return undecided(f"e2e {name}: {vr.backend} {vr.detail}")
+        return proved("z3", vcs=n, sample=f"{len(forms)} forms through compute_form_data(complex_mode=True): every accepted integrand is homogeneous of "
+                      "degree one (conjugate-homogeneous in the test function) for all argument values and all complex s")
+    run.add("end-to-end/accepted-forms-are-sesquilinear-as-written", e2e, kind="values")
+
     def canary():
         # x*x with x linear in v0 is NOT linear: a handler result (v0) would be unsound; check the VC machinery refutes it
         w = World(symbolic=True, complex_mode=False)
